@@ -32,6 +32,9 @@ impl WriterSet {
 //@item PendingIndex
 //@item EventValidationError
 //@item WriteError
+/// the error types of the index lookups are folded into WriteError in this environment (a helper naming them still compiles)
+pub type StreamIndexError = WriteError;
+pub type PartitionIndexError = WriteError;
 //@item WriterSet
 //@item WriterSet::validate_event_versions
 
